@@ -42,17 +42,20 @@ pub fn flush_frees() {
 /// Keys that the model cannot predict and that the lock-step comparison ignores
 /// (they are judged by the monitor on the recorded trace instead).
 const UNPREDICTED: [&str; 4] = ["blk", "thr", "sz", "run"];
-/// size of a node box in the model
-const MODEL_SZ: u64 = 144;
 
 thread_local! {
     /// real size of a node box in this build (set at the start of a run)
     pub static REAL_SZ: Cell<u64> = const { Cell::new(144) };
+    /// size of a node box in the model that produced the behaviour being replayed
+    pub static MODEL_SZ: Cell<u64> = const { Cell::new(144) };
 }
 
 fn scaled(exp: &Value, got: &Value) -> bool {
     match (exp.as_u64(), got.as_u64()) {
-        (Some(a), Some(b)) => a % MODEL_SZ == 0 && a / MODEL_SZ * REAL_SZ.with(|c| c.get()) == b || (a % MODEL_SZ != 0 && a == b),
+        (Some(a), Some(b)) => {
+            let m = MODEL_SZ.with(|c| c.get());
+            a % m == 0 && a / m * REAL_SZ.with(|c| c.get()) == b || (a % m != 0 && a == b)
+        }
         _ => exp == got,
     }
 }
